@@ -1258,6 +1258,8 @@ VmTrap vm_core_execute(VmState *vm) {
                                   "ARR_REMOVE: index %lld out of range (length %u)", (long long)idx64, alen);
             }
             uint32_t idx = (uint32_t)idx64;
+            /* The array owns a reference to every element: drop the one being removed */
+            vm_release(&vm->heap, vm_array_get(arr.as.array, idx));
             vm_array_remove(arr.as.array, idx);
             stack_push(vm, arr);
             break;
